@@ -237,6 +237,19 @@ func (k Keeper) SetCollectorLookupTable(ctx sdk.Context, records types.Collector
 	return nil
 }
 
+// SetGenCollectorLookupTable stores an exported lookup table record as it is (genesis import): the record was
+// validated when it was created, and the tables created through the governance contract message are not bound to a
+// genesis-minted secondary asset.
+func (k Keeper) SetGenCollectorLookupTable(ctx sdk.Context, records types.CollectorLookupTableData) {
+	var (
+		store = ctx.KVStore(k.storeKey)
+		key   = types.CollectorLookupTableMappingKey(records.AppId, records.CollectorAssetId)
+		value = k.cdc.MustMarshal(&records)
+	)
+
+	store.Set(key, value)
+}
+
 // GetCollectorLookupTable returns collector lookup table.
 func (k Keeper) GetCollectorLookupTable(ctx sdk.Context, appID, assetID uint64) (collectorLookup types.CollectorLookupTableData, found bool) {
 	var (
